@@ -1218,3 +1218,62 @@ def cli_namespace(prog, module_name: str, given=()):
         else:
             return None
     return ns
+
+
+def dict_priority(t: T, unname=lambda v: v, depth: int = 0
+                  ) -> Optional[List[T]]:
+    """A dict value as the list of its sources, highest priority first: for
+    every key the value comes from the first source that has it.
+      X.copy(), dict(X)                         -> sources of X
+      R.update(A)                               -> A over R
+      R.update({k: v for k, v in S.items() if k not in R})   (soft merge)
+                                                -> R over S
+      {**A, **B}, A | B                         -> B over A
+    None where a conditional or loop-built value is met."""
+    if depth > 12:
+        return None
+    t = unname(t)
+    while t.op == "named":
+        t = t.args[1]
+    rec = lambda x: dict_priority(x, unname, depth + 1)
+    if is_call_to(t, ".copy") and not t.args[1]:
+        return rec(tm.method_recv(t))
+    if is_call_to(t, "builtins.dict", "copy.copy", "copy.deepcopy") and \
+            len(t.args[1]) == 1 and not t.args[2]:
+        return rec(t.args[1][0])
+    if t.op == "mut" and t.args[1] == "update" and len(t.args[2]) == 1:
+        recv, a = t.args[0], unname(t.args[2][0])
+        base = rec(recv)
+        if base is None:
+            return None
+        if a.op == "comp" and a.args[0] == "dict" and len(a.args[2]) == 1:
+            it, lid = a.args[2][0]
+            el = a.args[1]
+            if not (is_call_to(it, ".items") and el.op == "tuple" and
+                    len(el.args) == 2):
+                return None
+            src = tm.method_recv(it)
+            item = T("elem", it, lid)
+            k_, v_ = tm.sub(item, const(0)), tm.sub(item, const(1))
+            if el.args[0] is not k_ or el.args[1] is not v_:
+                return None
+            other = rec(src)
+            if other is None:
+                return None
+            conds = a.args[3]
+            if not conds:
+                return other + base
+            if len(conds) == 1 and conds[0].op == "cmp" and \
+                    conds[0].args[0] == "NotIn" and conds[0].args[1] is k_ \
+                    and root_object(unname(conds[0].args[2])) is \
+                    root_object(unname(recv)):
+                return base + other
+            return None
+        other = rec(a)
+        return None if other is None else other + base
+    if t.op == "binop" and t.args[0] == "BitOr":
+        a, b = rec(t.args[1]), rec(t.args[2])
+        return None if a is None or b is None else b + a
+    if t.op in ("ite", "loopout", "loopvar", "upd"):
+        return None
+    return [t]
